@@ -415,7 +415,11 @@ func (cl *vCluster) clusterClient() (*ClusterClient, error) {
 	for _, m := range cl.live() {
 		addrs = append(addrs, m.name)
 	}
-	cc, err := NewClusterClient(addrs, WithLogger(log.New(vLogSink, "", 0)), WithRoutingTableFetchInterval(500*time.Millisecond))
+	// like the members' internal client, the harness' cluster client does not re-send a request that timed out
+	// (a request applied twice is the client configuration's at-least-once behaviour, not a subject of the checks)
+	ccfg := config.NewClient()
+	ccfg.MaxRetries = -1
+	cc, err := NewClusterClient(addrs, WithLogger(log.New(vLogSink, "", 0)), WithRoutingTableFetchInterval(500*time.Millisecond), WithConfig(ccfg))
 	if err != nil {
 		return nil, fmt.Errorf("%w: cluster client: %v", errInconclusive, err)
 	}
